@@ -491,6 +491,10 @@ def _class_family(trees):
 def normalise(trees, protected):
     """trees: module name -> ast.Module (modified in place).  Returns the list of dissolved helpers ('module:qualname')."""
     done = []
+    for mn in sorted(trees):
+        k = _lower_first_match(trees[mn])
+        if k:
+            done.append("%s:<%d first-match generator(s) written as loops>" % (mn, k))
     for _ in range(160):
         one = _one_pass(trees, protected)
         if one is None:
@@ -1008,3 +1012,75 @@ def _ancestors(parent, n):
     while n is not None:
         yield n
         n = parent.get(n)
+
+
+# ---------------------------------------------------------------------------------------------------------------------------
+# Idiom lowering:  X = next((E for T in IT if C), D)   ==>   X = D / for T in IT: if C: X = E; break
+# (also with the generator bound to a local that has no other use).  Same value, same order of evaluation of IT, C and E.
+
+def _lower_first_match(tree):
+    count = 0
+    for f in [n for n in ast.walk(tree) if isinstance(n, ast.FunctionDef)]:
+        for _ in range(10):
+            if not _lower_one(f):
+                break
+            count += 1
+    return count
+
+
+def _lower_one(f):
+    parent = _parents(f)
+    own = []
+    stack = list(f.body)
+    while stack:
+        n = stack.pop()
+        if isinstance(n, (ast.FunctionDef, ast.AsyncFunctionDef, ast.ClassDef, ast.Lambda)):
+            continue
+        own.append(n)
+        stack.extend(ast.iter_child_nodes(n))
+    for st in own:
+        if not (isinstance(st, ast.Assign) and len(st.targets) == 1 and isinstance(st.targets[0], ast.Name) and isinstance(st.value, ast.Call)
+                and isinstance(st.value.func, ast.Name) and st.value.func.id == "next" and len(st.value.args) == 2 and not st.value.keywords):
+            continue
+        src, default = st.value.args
+        holder = parent.get(st)
+        lst = next((getattr(holder, fn_) for fn_ in ("body", "orelse", "finalbody") if isinstance(getattr(holder, fn_, None), list) and st in getattr(holder, fn_)), None)
+        if lst is None or not _pure(default):
+            continue
+        gen_stmt = None
+        if isinstance(src, ast.Name):
+            # the generator was bound to a local just before, and is used nowhere else
+            i = lst.index(st)
+            prev = lst[i - 1] if i > 0 else None
+            uses = [n for n in own if isinstance(n, ast.Name) and n.id == src.id]
+            if not (isinstance(prev, ast.Assign) and len(prev.targets) == 1 and isinstance(prev.targets[0], ast.Name) and prev.targets[0].id == src.id
+                    and isinstance(prev.value, ast.GeneratorExp) and len(uses) == 2):
+                continue
+            gen_stmt, src = prev, prev.value
+        if not (isinstance(src, ast.GeneratorExp) and len(src.generators) == 1 and not src.generators[0].is_async):
+            continue
+        gen = src.generators[0]
+        x = st.targets[0].id
+        tnames = {n.id for n in ast.walk(gen.target) if isinstance(n, ast.Name)}
+        others = {n.id for n in own if isinstance(n, ast.Name)} - {n.id for n in ast.walk(src) if isinstance(n, ast.Name)}
+        if tnames & others or x in tnames or any(isinstance(n, ast.Name) and n.id == x for n in ast.walk(src)):
+            continue            # the loop variables would become visible under a name the function already uses
+        hit = [ast.copy_location(ast.Assign(targets=[ast.Name(id=x, ctx=ast.Store())], value=src.elt, lineno=st.lineno), st), ast.copy_location(ast.Break(), st)]
+        body = hit
+        if gen.ifs:
+            test = gen.ifs[0] if len(gen.ifs) == 1 else ast.BoolOp(op=ast.And(), values=list(gen.ifs))
+            body = [ast.copy_location(ast.If(test=test, body=hit, orelse=[]), st)]
+        loop = ast.copy_location(ast.For(target=gen.target, iter=gen.iter, body=body, orelse=[], lineno=st.lineno), st)
+        for n in ast.walk(gen.target):
+            if hasattr(n, "ctx"):
+                n.ctx = ast.Store()
+        init = ast.copy_location(ast.Assign(targets=[ast.Name(id=x, ctx=ast.Store())], value=default, lineno=st.lineno), st)
+        new = [init, loop]
+        for n_ in new:
+            ast.fix_missing_locations(n_)
+        i = lst.index(st)
+        lst[i:i + 1] = new
+        if gen_stmt is not None:
+            lst.remove(gen_stmt)
+        return True
+    return False
